@@ -11,6 +11,9 @@ Terms: {"v":name} | {"c":text} | {"l":[params],"b":body} | {"f":func,"a":[args]}
   {"op":"procmd","items":[[kind,key,val]..],"keys":[..]}   -> {"err":cls} | {"types":[..],"fns":[..],"enums":[..],"injects":[..],"scripts":[..]}
   {"op":"variant","kind":K,"q":T,"q2":T,...}       -> {"related":bool,"excluded":string|null, ...}
       kind "alpha" with "globals":[names]           -> also {"readsGlobal":bool,"readsGlobal2":bool,"binderLikeGlobal":bool}
+  {"op":"mdsame","items":[..],"items2":[..],"scripts":[[name,[lines],[deps]]..],"scripts2":[..],"scriptsUsed":bool}
+                                                   -> {"same":bool,"sameByKind":bool,"commuting":bool,"refused":bool}
+  {"op":"emitscripts","scripts":[[name,[lines],[deps]]..]}   -> {"ok":[lines]} | {"err":cls}      (generate_script_block)
   {"op":"put","id":I,"toks":[tok..]}               -> {"put":true}      (a lexed file, kept for later `same` requests)
   {"op":"same","a":O,"b":O}                        -> {"strict":bool,"diag":bool,"firstDiff":k}   O = {"ok":[I..]} | {"err":cls}
 Run: lake env lean --run FaxVerif/C08/Driver.lean
@@ -18,6 +21,7 @@ Run: lake env lean --run FaxVerif/C08/Driver.lean
 import Lean.Data.Json
 import Std.Data.HashMap
 import FaxVerif.C08.Spec
+import FaxVerif.C08.MdModel
 open Lean FaxVerif.C08
 
 partial def qOfJson (j : Json) : Except String Q := do
@@ -106,6 +110,11 @@ def mdItemOf (j : Json) : Except String MdItem := do
     else return .bad x
   | _ => throw "bad md item"
 
+def sblkOf (j : Json) : Except String SBlk := do
+  match (← j.getArr?).toList with
+  | [n, sc, ds] => return ⟨← n.getStr?, ← strs sc, ← strs ds⟩
+  | _ => throw "bad script block"
+
 def optStr : Option String → Json
   | some s => Json.str s
   | none => Json.null
@@ -175,6 +184,22 @@ def handleReq (store : Store) (j : Json) : Except String Json := do
         ("fns", Json.arr (keys.map (fun k => optStr (s.fns k))).toArray),
         ("enums", Json.arr (keys.map (fun k => optStr (s.enums k))).toArray),
         ("injects", pairs s.injects), ("scripts", pairs s.scripts), ("commuting", commutingAll items)]
+  else if op == "mdsame" then
+    let items ← (← (← j.getObjVal? "items").getArr?).toList.mapM mdItemOf
+    let items2 ← (← (← j.getObjVal? "items2").getArr?).toList.mapM mdItemOf
+    let sc ← (← (← j.getObjVal? "scripts").getArr?).toList.mapM sblkOf
+    let sc2 ← (← (← j.getObjVal? "scripts2").getArr?).toList.mapM sblkOf
+    let used ← (← j.getObjVal? "scriptsUsed").getBool?
+    let refused := match mdView (keysOf items) items sc used with
+      | .ok _ => false
+      | .error _ => true
+    return Json.mkObj [("same", mdSameB items items2 sc sc2 used), ("sameByKind", sameByKind items items2),
+                       ("commuting", commutingAll items), ("refused", refused)]
+  else if op == "emitscripts" then
+    let sc ← (← (← j.getObjVal? "scripts").getArr?).toList.mapM sblkOf
+    match emitScripts sc with
+    | .ok out => return Json.mkObj [("ok", jstrs out)]
+    | .error e => return Json.mkObj [("err", e)]
   else if op == "variant" then
     let kind ← (← j.getObjVal? "kind").getStr?
     let q ← qOfJson (← j.getObjVal? "q")
@@ -216,7 +241,8 @@ def handleReq (store : Store) (j : Json) : Except String Json := do
       let siteOk := match resolvePath path q with
         | some p => fuseSiteOkB fuel q p
         | none => false
-      return Json.mkObj ([("related", Json.bool rel), ("sameNF", Json.bool (sameNormalFormB fuel q q2)), ("siteOk", Json.bool siteOk)] ++ base)
+      return Json.mkObj ([("related", Json.bool rel), ("sameNF", Json.bool (sameNormalFormB fuel q q2)),
+                          ("sameNF2", Json.bool (sameNormalForm2B fuel q q2)), ("siteOk", Json.bool siteOk)] ++ base)
     else if kind == "nf" then
       -- fused by substitution / unfused: `path` is the site in whichever of the two is the separately written one
       let path ← (← (← j.getObjVal? "path").getArr?).toList.mapM (·.getInt?)
@@ -224,7 +250,8 @@ def handleReq (store : Store) (j : Json) : Except String Json := do
       let siteOk := match resolvePath path sep with
         | some p => fuseSiteOkB fuel sep p
         | none => false
-      return Json.mkObj ([("related", Json.bool true), ("sameNF", Json.bool (sameNormalFormB fuel q q2)), ("siteOk", Json.bool siteOk)] ++ base)
+      return Json.mkObj ([("related", Json.bool true), ("sameNF", Json.bool (sameNormalFormB fuel q q2)),
+                          ("sameNF2", Json.bool (sameNormalForm2B fuel q q2)), ("siteOk", Json.bool siteOk)] ++ base)
     else if kind == "wire" then
       return Json.mkObj ([("related", Json.bool (wireNorm q == wireNorm q2))] ++ base)
     else throw s!"unknown variant kind {kind}"
